@@ -44,6 +44,10 @@ pub struct Case {
     pub cuts: CutSel,
     /// segment i of n of the sorted cut list
     pub seg: (usize, usize),
+    /// the archive comes from the independent encoder (another writer of the same format):
+    /// (encoder seed, file id style: 0 sequential, 1 from 10 by steps of 3, 2 random u64)
+    #[serde(default)]
+    pub foreign: Option<(u64, u8)>,
 }
 
 pub struct Prepared {
@@ -60,6 +64,33 @@ pub struct Prepared {
     pub flush_marks: Vec<(usize, BTreeMap<String, usize>)>,
     /// the independent decoder refuses the archive the writer produced
     pub model_rejects: Option<String>,
+}
+
+/// Archive of a case: written by the library, or by the independent encoder
+pub fn prepare_case(c: &Case, k: &K) -> Result<Prepared, String> {
+    let Some((enc_seed, style)) = c.foreign else { return prepare(&c.prog, k) };
+    let p = &c.prog;
+    let ids = match style {
+        0 => crate::c06::IdStyle::Sequential,
+        1 => crate::c06::IdStyle::From(10),
+        _ => crate::c06::IdStyle::Random,
+    };
+    let (raw, sks) = crate::c06::model_encode(p, k, enc_seed, ids, false);
+    let d = fmt::decode_archive(k, &raw, &sks).map_err(|e| format!("HARNESS: model cannot decode its own archive: {e}"))?;
+    let regions = fmt::regions(k, &d, raw.len());
+    let compressed = p.layers & 2 != 0;
+    Ok(Prepared {
+        header_len: d.header.len,
+        regions,
+        stream: if compressed { None } else { Some(d.stream.clone()) },
+        encrypted: p.layers & 1 != 0,
+        compressed,
+        raw,
+        expected: p.expected(k),
+        sks,
+        flush_marks: vec![],
+        model_rejects: None,
+    })
 }
 
 pub fn prepare(p: &Program, k: &K) -> Result<Prepared, String> {
@@ -296,6 +327,15 @@ pub fn judge(pr: &Prepared, k: &K, n: usize, mode: Mode, res: &Result<Outcome, S
 }
 
 pub fn run_one(pr: &Prepared, n: usize, mode: Mode, rng: &mut Rng, sched: Sched) -> Result<Result<Outcome, String>, (String, String)> {
+    // one case in three repairs into an output archive that already holds an entry
+    let used = n % 3 == 1;
+    drv::REPAIR_INTO_USED_WRITER.with(|c| c.set(used));
+    let r = run_one_inner(pr, n, mode, rng, sched);
+    drv::REPAIR_INTO_USED_WRITER.with(|c| c.set(false));
+    r
+}
+
+fn run_one_inner(pr: &Prepared, n: usize, mode: Mode, rng: &mut Rng, sched: Sched) -> Result<Result<Outcome, String>, (String, String)> {
     guarded(|| {
         let src = drv::ThrottledSrc::new(&pr.raw[..n], sched);
         // what repair writes is bounded by the content of the archive (framing included): 4x + 1 MiB is generous
@@ -309,7 +349,7 @@ pub fn run_one(pr: &Prepared, n: usize, mode: Mode, rng: &mut Rng, sched: Sched)
 pub fn run_case(ctx: &mut Ctx, c: &Case, me: &str) {
     let k = ctx.k;
     let p = &c.prog;
-    let pr = match guarded(|| prepare(p, &k)) {
+    let pr = match guarded(|| prepare_case(c, &k)) {
         Ok(Ok(pr)) => pr,
         Ok(Err(e)) => {
             // C01/C06 territory; nothing to sweep
@@ -387,6 +427,9 @@ pub fn run_case(ctx: &mut Ctx, c: &Case, me: &str) {
                 3 => Sched::Max(4095),
                 _ => Sched::All,
             };
+            if n % 3 == 1 {
+                ctx.count("repair_into_output_archive_that_already_holds_an_entry");
+            }
             ctx.count(&format!("source_schedule:{}", match &sched { Sched::All => "whole", Sched::Max(_) => "max", Sched::Rand(..) => "rand", Sched::Cycle(_) => "cycle", _ => "other" }));
             let res = run_one(&pr, n, mode, &mut rng, sched);
             let scen = |cuts: Vec<usize>| {
